@@ -30,6 +30,7 @@ pub fn plan() -> Plan {
         directed: vec![],
         quick_histories: 400,
         thorough_histories: 60000,
+        s5: None,
     }
 }
 
